@@ -482,7 +482,9 @@ func (e *Evaluator) evalUnaryExpr(expr *ExprUnary) (*Cell, error) {
 		if expr.Postfix {
 			return NewCell(NewValue(v)), nil
 		}
-		return NewCell(val.Value), nil
+		// the operand cell of a not yet existing member (a[len]) is not the
+		// cell that was assigned to: the result is the value that was stored
+		return NewCell(newValue), nil
 	default:
 		return nil, e.error(expr.OpToken, fmt.Sprintf("unknown operator %s", expr.OpToken.Tag))
 	}
